@@ -515,12 +515,18 @@ def repeatNB (r : Rep) (k : Int) : V :=
   | .inf => .seq r
   | .fin n => takeB (.mapGet .count r (.mod n)) (k * n)
 
+/-- `(0..len)` is exhausted (never, for an infinite sequence) -/
+def atEnd (limit : Option Nat) (i : Nat) : Bool :=
+  match limit with
+  | some n => decide (i ≥ n)
+  | none => false
+
 /-- first index `i ≥ from` (at most `fuel` steps) whose element fails (`stopOn = false`) / satisfies
 (`stopOn = true`) the predicate `x < c`; `none` = no such index below `limit` -/
 def scanLt (r : Rep) (c : Int) (stopOn : Bool) (limit : Option Nat) : Nat → Nat → Res (Option Nat)
   | _, 0 => .panic "out of fuel"
   | i, fuel + 1 =>
-    if (match limit with | some n => decide (i ≥ n) | none => false) then .ok none else
+    if atEnd limit i then .ok none else
     match r.get i with
     | .ok (.int x) => if decide (x < c) = stopOn then .ok (some i) else scanLt r c stopOn limit (i + 1) fuel
     | .ok (.tup _) => .panic "to_primitive: not an int"
@@ -561,7 +567,7 @@ still to be skipped; `limit` = length of a finite sequence -/
 def nthFwd (r : Rep) (c : Int) (limit : Option Nat) : Nat → Nat → Nat → V
   | _, _, 0 => .panic "out of fuel"
   | i, left, fuel + 1 =>
-    if (match limit with | some n => decide (i ≥ n) | none => false) then .opt none else
+    if atEnd limit i then .opt none else
     match r.get i with
     | .ok (.int x) =>
         if x < c then (if left = 0 then .opt (some (.int x)) else nthFwd r c limit (i + 1) (left - 1) fuel)
@@ -597,7 +603,7 @@ def nthLtB (r : Rep) (n : Int) (c : Int) (fuel : Nat) : V :=
 def eqScan (a b : Rep) (limit : Option Nat) : Nat → Nat → V
   | _, 0 => .panic "out of fuel"
   | i, fuel + 1 =>
-    if (match limit with | some n => decide (i ≥ n) | none => false) then .bool true else
+    if atEnd limit i then .bool true else
     match a.get i with
     | .err m => .err m
     | .panic m => .panic m
@@ -607,12 +613,18 @@ def eqScan (a b : Rep) (limit : Option Nat) : Nat → Nat → V
       | .panic m => .panic m
       | .ok y => if x == y then eqScan a b limit (i + 1) fuel else .bool false
 
+/-- `seq0.len() != seq1.len()` on `Option<usize>` -/
+def Len.same : Len → Len → Bool
+  | .fin a, .fin b => a == b
+  | .inf, .inf => true
+  | _, _ => false
+
 /-- `eq` of two sequences -/
 def eqB (a b : Rep) (fuel : Nat) : V :=
   match a.len, b.len with
   | .panic m, _ => .panic m
   | _, .panic m => .panic m
-  | la, lb => if la == lb then eqScan a b (lenOpt la) 0 fuel else .bool false
+  | la, lb => if Len.same la lb then eqScan a b (lenOpt la) 0 fuel else .bool false
 
 /-- `to_stack` (sequence.rs:888-908) -/
 def toStackB (r : Rep) : V :=
